@@ -1023,6 +1023,119 @@ fn t_scratch(rng: &mut Rng, stats: &mut Stats) {
 	}
 }
 
+/// LONG histories on ONE object: a writer and a reader over a hundred to several hundred blocks whose sizes follow a
+/// pattern (one large block, then many small ones, then a medium one; growing; shrinking; spikes every 16 / 64 / 256),
+/// one serializer configuration and one deserializer state over hundreds of datums. What recycled, trimmed, capped or
+/// lazily grown internal buffers — and whatever `unsafe` keeps track of their initialised part — get wrong only after
+/// many uses.
+fn t_long(rng: &mut Rng, stats: &mut Stats) {
+	let schema: Schema = r#""bytes""#.parse().unwrap();
+	let miri = cfg!(miri);
+	let n = if miri { 66 + rng.usize(12) } else { *rng.pick(&[130usize, 200, 260, 300, 520]) + rng.usize(20) };
+	let (small, medium, big) = if miri { (8usize, 300usize, 2_000usize) } else { (40, 40_000, 140_000 + rng.usize(200_000)) };
+	let pattern = rng.below(6);
+	let period = *rng.pick(&[16usize, 64, 65, 128, 256]);
+	let big_at = rng.usize(3);
+	let sizes: Vec<usize> = (0..n)
+		.map(|i| match pattern {
+			// one large block early, then small ones, then a medium one now and then
+			0 => {
+				if i == big_at {
+					big
+				} else if i > big_at && (i - big_at) % (period + 1) == 0 {
+					medium + rng.usize(medium)
+				} else {
+					rng.usize(small)
+				}
+			}
+			1 => i * (if miri { 4 } else { 150 }),
+			2 => (n - i) * (if miri { 4 } else { 150 }),
+			3 => {
+				if i % period == period - 1 {
+					medium + rng.usize(big - medium)
+				} else {
+					rng.usize(small)
+				}
+			}
+			4 => rng.usize(small),
+			_ => match rng.below(20) {
+				0 => medium + rng.usize(big - medium),
+				1 | 2 => rng.usize(medium),
+				_ => rng.usize(small),
+			},
+		})
+		.collect();
+	let vals: Vec<Vec<u8>> = sizes.iter().enumerate().map(|(i, &l)| (0..l).map(|j| (j as u64).wrapping_mul(0x9E37_79B9).wrapping_add(i as u64 * 7).wrapping_shr(5) as u8).collect()).collect();
+	stats.op(match pattern {
+		0 => "long:one-large-block-then-small-ones-then-medium",
+		1 => "long:growing",
+		2 => "long:shrinking",
+		3 => "long:spikes",
+		4 => "long:small",
+		_ => "long:mixed",
+	});
+	match rng.below(3) {
+		0 | 1 => {
+			let (codec, name) = if miri {
+				if rng.bool() { (Compression::Null, "null") } else { (Compression::Snappy, "snappy") }
+			} else {
+				pick_codec(rng)
+			};
+			let _ = name;
+			stats.op("long:container-file-of-hundreds-of-blocks");
+			let mut config = SerializerConfig::new(&schema);
+			let mut w = WriterBuilder::new(&mut config).compression(codec).approx_block_size(*rng.pick(&[0u32, 0, 1, 64])).build(Vec::new()).unwrap_or_else(|e| mismatch!("long: build: {e}"));
+			for v in &vals {
+				w.serialize(serde_bytes::Bytes::new(v)).unwrap_or_else(|e| mismatch!("long: serialize: {e}"));
+			}
+			let file = w.into_inner().unwrap_or_else(|e| mismatch!("long: into_inner: {e}"));
+			let check = |i: usize, got: Result<Option<serde_bytes::ByteBuf>, serde_avro_fast::de::DeError>| match got {
+				Ok(Some(g)) if g.as_ref() == &vals[i][..] => {}
+				Ok(Some(g)) => mismatch!("long: value {i} of {n} differs: {} bytes vs {} written", g.len(), vals[i].len()),
+				other => mismatch!("long: value {i} of {n}: {:?}", other.map(|o| o.is_some()).map_err(|e| e.to_string())),
+			};
+			if rng.bool() {
+				stats.op("long:read-from-slice");
+				let mut reader = Reader::from_slice(&file).unwrap_or_else(|e| mismatch!("long: from_slice: {e}"));
+				for i in 0..n {
+					check(i, reader.deserialize_next::<serde_bytes::ByteBuf>());
+				}
+				if !matches!(reader.deserialize_next::<serde_bytes::ByteBuf>(), Ok(None)) {
+					mismatch!("long: more values than were written");
+				}
+			} else {
+				stats.op("long:read-from-bufread");
+				let cap = *rng.pick(&[1usize, 7, 64, 8192]);
+				let mut reader = Reader::from_reader(std::io::BufReader::with_capacity(cap, std::io::Cursor::new(&file[..]))).unwrap_or_else(|e| mismatch!("long: from_reader: {e}"));
+				for i in 0..n {
+					check(i, reader.deserialize_next::<serde_bytes::ByteBuf>());
+				}
+				if !matches!(reader.deserialize_next::<serde_bytes::ByteBuf>(), Ok(None)) {
+					mismatch!("long: more values than were written");
+				}
+			}
+		}
+		_ => {
+			stats.op("long:one-configuration-and-one-deserializer-state-over-hundreds-of-datums");
+			let mut config = SerializerConfig::new(&schema);
+			let mut stream = vec![];
+			for (i, v) in vals.iter().enumerate() {
+				let d = serde_avro_fast::to_datum_vec(serde_bytes::Bytes::new(v), &mut config).unwrap_or_else(|e| mismatch!("long: to_datum_vec {i}: {e}"));
+				stream.extend(d);
+			}
+			let cap = *rng.pick(&[1usize, 5, 64, 8192]);
+			let src = std::io::BufReader::with_capacity(cap, std::io::Cursor::new(stream));
+			let mut state = serde_avro_fast::de::DeserializerState::new(serde_avro_fast::de::read::ReaderRead::new(src), &schema);
+			for (i, v) in vals.iter().enumerate() {
+				let got: serde_bytes::ByteBuf = serde::Deserialize::deserialize(state.deserializer()).unwrap_or_else(|e| mismatch!("long: datum {i}: {e}"));
+				if got.as_ref() != &v[..] {
+					mismatch!("long: datum {i} of {n} differs: {} bytes vs {} written", got.len(), v.len());
+				}
+			}
+		}
+	}
+}
+
 /// User code called by the crate may PANIC (a `BufRead` source, a `Write` sink, a `Serialize` impl): the unwind goes
 /// through the reader's / writer's / serializer's frames. Afterwards the object is dropped, or used again and then
 /// dropped; whatever it answers, no memory error may follow (no double drop, no use of something the unwind dropped).
@@ -1364,14 +1477,15 @@ fn main() {
 		let mut rng = Rng::for_run(seed, "C10", i);
 		let t = match mode {
 			"threads-only" => 5,
-			"no-threads" => match rng.below(12) {
+			"no-threads" => match rng.below(13) {
 				5 => 7,
 				6 | 7 => 9,
 				8 | 9 => 11,
 				10 | 11 => 13,
+				12 => 15,
 				x => x,
 			},
-			_ => rng.below(15),
+			_ => rng.below(16),
 		};
 		let name = match t {
 			0 => {
@@ -1409,6 +1523,10 @@ fn main() {
 			13 | 14 => {
 				t_panics(&mut rng, &mut stats);
 				"panics"
+			}
+			15 => {
+				t_long(&mut rng, &mut stats);
+				"long"
 			}
 			_ => {
 				t_threads(&mut rng, &mut stats);
